@@ -1711,8 +1711,11 @@ class TeX(object):
         sign = self.readOptionalSigns()
         # internal/coerced glue
         for t in self:
+            # (an internal dimen or integer is only the natural size: it
+            # goes through readDimen below and may be followed by plus/minus)
             if t.nodeType == Macro.ELEMENT_NODE and \
-               isinstance(t, ParameterCommand):
+               isinstance(t, ParameterCommand) and \
+               isinstance(type(t).value, glue):
                 ParameterCommand.enable()
                 # An internal glue keeps its stretch and shrink components
                 stretch = getattr(type(t).value, 'stretch', None)
@@ -1748,8 +1751,11 @@ class TeX(object):
         sign = self.readOptionalSigns()
         # internal/coerced muglue
         for t in self:
+            # (an internal dimen or integer is only the natural size: it
+            # goes through readDimen below and may be followed by plus/minus)
             if t.nodeType == Macro.ELEMENT_NODE and \
-               isinstance(t, ParameterCommand):
+               isinstance(t, ParameterCommand) and \
+               isinstance(type(t).value, glue):
                 ParameterCommand.enable()
                 # An internal glue keeps its stretch and shrink components
                 stretch = getattr(type(t).value, 'stretch', None)
